@@ -300,25 +300,27 @@ func (c *Connection) GetData(key string) (interface{}, bool) {
 
 // JoinRoom adds this connection to a room
 func (c *Connection) JoinRoom(roomName string) {
+	// roomsMu is held across both updates so that the connection's own
+	// view and the room's membership change together
 	c.roomsMu.Lock()
-	c.rooms[roomName] = true
-	c.roomsMu.Unlock()
+	defer c.roomsMu.Unlock()
 
 	// Add to room manager synchronously to ensure the room exists
 	// before any subsequent operations (like broadcast_to_room)
 	rm := c.hub.GetRoomManager()
 	if err := rm.AddConnectionToRoom(c, roomName); err != nil {
 		log.Printf("[WS] Failed to join room %s: %v", roomName, err)
-	} else {
-		log.Printf("[WS] Connection %s joined room %s", c.ID, roomName)
+		return
 	}
+	c.rooms[roomName] = true
+	log.Printf("[WS] Connection %s joined room %s", c.ID, roomName)
 }
 
 // LeaveRoom removes this connection from a room
 func (c *Connection) LeaveRoom(roomName string) {
 	c.roomsMu.Lock()
+	defer c.roomsMu.Unlock()
 	delete(c.rooms, roomName)
-	c.roomsMu.Unlock()
 
 	// Remove from room manager synchronously
 	rm := c.hub.GetRoomManager()
